@@ -68,7 +68,7 @@ func corpusOpener(file string) source.Opener {
 }
 
 const (
-	c14Specials = 110 // pathological + cycles + opener faults
+	c14Specials = 125 // pathological + cycles + opener faults
 )
 
 func (c14) NumCases(tier string, seed int64) int {
@@ -474,8 +474,33 @@ func (p c14) special(c *core.Ctx, k int) {
 		sp{name: "leafref-chain", text: hdr("m") + "container c { leaf a { type leafref { path \"../b\"; } } leaf b { type leafref { path \"../c\"; } } leaf c { type int32; } } }"},
 		sp{name: "if-feature-deep-parens", text: hdr("m") + "feature f; leaf x { if-feature \"" + strings.Repeat("(", 20000) + "f" + strings.Repeat(")", 20000) + "\"; type string; } }"},
 	)
+	// a lattice of identities with two bases each: 2^levels paths from the top to the bottom, levels*2 identities
+	lattice := func(levels int) string {
+		var b strings.Builder
+		b.WriteString(hdr("m") + "identity a0; identity b0; ")
+		for i := 1; i < levels; i++ {
+			fmt.Fprintf(&b, "identity a%d { base a%d; base b%d; } identity b%d { base a%d; base b%d; } ", i, i-1, i-1, i, i-1, i-1)
+		}
+		fmt.Fprintf(&b, "leaf x { type identityref { base a0; } } }")
+		return b.String()
+	}
+	specials = append(specials,
+		sp{name: "identity-lattice-12", text: lattice(12)},
+		sp{name: "identity-lattice-48", text: lattice(48)},
+		sp{name: "grouping-recursion-thru-own-action", text: hdr("m") + "grouping g { leaf l { type string; } action act { input { uses g; } } } container top { uses g; } }"},
+		sp{name: "grouping-recursion-thru-own-notification", text: hdr("m") + "grouping g { leaf l { type string; } notification n { container below { uses g; } } } container top { uses g; } }"},
+		sp{name: "grouping-recursion-thru-action-output-of-other-grouping", text: hdr("m") + "grouping h { action act { output { uses g; } } } grouping g { leaf l { type string; } uses h; } list top { key l; uses g; } }"},
+		sp{name: "default-twice-leaf", text: hdr("m") + "leaf a { type string; default a; default b; } }"},
+		sp{name: "default-twice-choice", text: hdr("m") + "choice c { default a; default b; leaf a { type string; } leaf b { type string; } } }"},
+		sp{name: "default-twice-typedef", text: hdr("m") + "typedef t { type string; default a; default b; } leaf l { type t; } }"},
+		sp{name: "default-twice-deviate-add", text: hdr("m") + "leaf a { type string; } deviation \"/a\" { deviate add { default a; default b; } } }"},
+		sp{name: "unused-grouping-with-typedef-cycle", text: hdr("m") + "grouping g { typedef a { type b; } typedef b { type a; } leaf x { type a; } } leaf y { type string; } }"},
+	)
 	if k >= len(specials) {
 		return
+	}
+	if len(specials) > c14Specials {
+		panic("harness: more special texts than slots")
 	}
 	s := specials[k]
 	op := s.opener
